@@ -160,6 +160,7 @@ def run(ctx, model=None):
         check_case(ctx, gen.with_empty_action(gen.layered_tie_game(rng), rng), model)
         check_case(ctx, gen.integer_game(rng), None)
         check_case(ctx, gen.close_rewards_game(rng), model)
+        check_case(ctx, gen.final_player_game(rng), model)
         check_case(ctx, gen.duplicate_label_game(rng), model)
         check_case(ctx, gen.mixed_int_float_game(rng), None)
         if k % 2 == 0:
